@@ -57,10 +57,24 @@ class Ctx:
         self.quick = tier == "quick"
 
     # ------------------------------------------------------------------ model checking
-    def mc(self, module, cfg, spec_dir, required_actions=(), label=None, **kw):
+    def mc_many(self, jobs, parallel=4):
+        """Several exhaustive runs concurrently.  jobs: list of dicts with the arguments of mc(); returns results in order."""
+        def one(j):
+            kw = {k: v for k, v in j.items() if k not in ("module", "cfg", "spec_dir", "required_actions", "label")}
+            kw.setdefault("workers", max(2, 16 // max(1, min(parallel, len(jobs)))))
+            return tlc.run(j["module"], j["cfg"], os.path.join(tlc.SPEC, j["spec_dir"]), **kw)
+        with ThreadPoolExecutor(max_workers=parallel) as ex:
+            results = list(ex.map(one, jobs))
+        out = []
+        for j, r in zip(jobs, results):
+            out.append(self.mc(j["module"], j["cfg"], j["spec_dir"], j.get("required_actions", ()), j.get("label"),
+                               _result=r, **{k: v for k, v in j.items() if k in ("simulate",)}))
+        return out
+
+    def mc(self, module, cfg, spec_dir, required_actions=(), label=None, _result=None, **kw):
         """Exhaustive (or simulation) run of a base spec.  An invariant violation here means the
         *specification* does not satisfy the formula -- a machinery error, not a code verdict."""
-        r = tlc.run(module, cfg, os.path.join(tlc.SPEC, spec_dir), **kw)
+        r = _result if _result is not None else tlc.run(module, cfg, os.path.join(tlc.SPEC, spec_dir), **kw)
         label = label or "%s/%s" % (module, cfg if "\n" not in cfg else "inline")
         if r.timed_out:
             self.exhaustive = False
